@@ -15,7 +15,7 @@ def mc_family(family, tier, wd):
     write_cfg(cfg, 'MCSpec', consts, invariants=['InOrderOnce', 'InvCommitLeFetched', 'InvCommitLeYielded', 'Complete'], view='View')
     t0 = time.time()
     r = tlc_mc('MC_IggySdk', cfg, wd, workers=8, timeout=2400)
-    # negative control: the consumer as found (no catch-up commit) must be refuted - the stall of finding D27
+    # negative control: the consumer as found (no catch-up commit) must be refuted - the stall of finding D28
     cfg2 = os.path.join(wd, 'MC_sdk_asfound.cfg')
     write_cfg(cfg2, 'MCSpec', dict(consts, CatchUp='FALSE', Modes='{"nth"}'), invariants=['Complete'], view='View')
     r2 = tlc_mc('MC_IggySdk', cfg2, wd, workers=2, timeout=600)
